@@ -774,6 +774,29 @@ static inline wchar_t *safec_find_percent_wn(const wchar_t *fmt) {
     }
     return NULL;
 }
+
+/* The same for the printf family. printf has no scan sets: "%[" is an
+   invalid directive which libc prints, going on with what follows, so
+   nothing may be skipped behind it. */
+static inline wchar_t *safec_find_percent_wn_printf(const wchar_t *fmt) {
+    while (*fmt) {
+        if (*fmt++ != L'%')
+            continue;
+        if (*fmt == L'%') {
+            fmt++;
+            continue;
+        }
+        while (*fmt && *fmt < 128 && strchr("-+ #0123456789.*'$", (int)*fmt))
+            fmt++;
+        while (*fmt && *fmt < 128 && strchr("hlLjztq", (int)*fmt))
+            fmt++;
+        if (*fmt == L'n')
+            return (wchar_t *)fmt;
+        if (*fmt && *fmt != L'%')
+            fmt++;
+    }
+    return NULL;
+}
 #endif
 
 // mingw has a _vsnprintf_s. we use our own.
